@@ -434,11 +434,13 @@ def _oracle(c, P, fn, a, b, tol, x, ok, interval=None, ncalls=None):
     """the C14 assertions for one (function, bracket, result)"""
     fa, fb = fn.val(a), fn.val(b)
     bracketed = c.lt(fa * fb, 0)
+    end_root = c.any([c.eq(fa, 0), c.eq(fb, 0)])
     if not _finite(x):
         # the scalar solver's 'no bracket' answer: (inf, False)
         c.check(P + ".point_in_bracket_or_no_success", _not(c, ok))
         c.check(P + ".bracketed_point_in_bracket", _not(c, bracketed))
         c.check(P + ".bracketed_success_reported", _not(c, bracketed))
+        c.check(P + ".end_point_root_is_found", _not(c, end_root))
         return
     inside = c.any([_between(c, a, x, b), _between(c, b, x, a)])
     fx = fn.val(x)
@@ -451,6 +453,8 @@ def _oracle(c, P, fn, a, b, tol, x, ok, interval=None, ncalls=None):
     c.check(P + ".bracketed_point_within_tol_of_sign_change", _implies(c, bracketed, near))
     only_flag_wrong = c.all([inside, near, _not(c, ok), _not(c, small)])
     c.check(P + ".bracketed_success_reported", _implies(c, bracketed, ok), regions={KEY: only_flag_wrong})
+    # a root sitting exactly on an end point of the bracket is a root in the bracket: located and reported
+    c.check(P + ".end_point_root_is_found", _implies(c, end_root, c.all([inside, ok, c.any([small, near])])))
     # (3)
     c.check(P + ".success_means_root_within_tol", _implies(c, ok, c.any([small, near])))
     # (4) no sign change in the bracket and no end-point root (to within tol) => no success
@@ -575,7 +579,9 @@ def _vector(c, inst, n, tol_arg, tol):
             # change and hands back the end point with the smaller |f| and flag = (|f| <= tol)
             same_x = False
             small = c.le(absval(c, fn.val(x)), tol)
-            region = c.all([oks is False, c.le(0, fa * fb), c.any([c.eq(x, a), c.eq(x, b)]), _iff(c, ok, small)])
+            # (strictly the same sign at both ends: with a root exactly AT an end point, f(a)*f(b) = 0, the scalar solver does iterate
+            # and both solvers must agree)
+            region = c.all([oks is False, c.lt(0, fa * fb), c.any([c.eq(x, a), c.eq(x, b)]), _iff(c, ok, small)])
         c.check("c14.vec.agrees_with_scalar.bracketed", _implies(c, bracketed, c.all([same_x, same_ok])))
         c.check("c14.vec.agrees_with_scalar.success_flag", same_ok, regions={KEY_VEC: region})
         c.check("c14.vec.agrees_with_scalar.point", same_x, regions={KEY_VEC: region})
